@@ -44,7 +44,7 @@ use tensor_blob::{BlobConfig, BlobStore};
 use tensor_checkpoint::{
     CheckpointConfig, CheckpointMetadata, CheckpointState, CheckpointStorage, RetentionManager,
 };
-use tensor_store::{EmbeddingSlab, EntityId, ScalarValue, TensorData, TensorStore, TensorValue};
+use tensor_store::{EmbeddingSlab, EntityId, MetadataSlab, ScalarValue, TensorData, TensorStore, TensorValue};
 use vector_engine::{HNSWConfig, VectorError};
 
 const EMB_DIM: usize = 384; // SlabRouterConfig::default().embedding_dim
@@ -1282,6 +1282,16 @@ fn gen_target(r: &mut Rng, n_ck: u64, mode: Mode) -> u64 {
     }
 }
 
+/// a raw plain key number: 2 in 5 from another family than `plain:` (biased to the families that
+/// share a metadata shard with an engine's keys: `user:`, `order:`, `Note:`, `~tmp:`, `/path:`)
+fn gen_plain_k(r: &mut Rng) -> u64 {
+    if r.chance(2, 5) {
+        *r.pick(&[1u64, 1, 2, 2, 3, 4, 9, 5, 6, 7, 8]) * 100 + r.below(3)
+    } else {
+        r.below(4)
+    }
+}
+
 fn gen_op(r: &mut Rng, g: &mut Gen, n_ck: u64, raw_mix: bool, mode: Mode) -> Op {
     let t = r.below(g.tables);
     let w = r.below(104);
@@ -1316,16 +1326,17 @@ fn gen_op(r: &mut Rng, g: &mut Gen, n_ck: u64, raw_mix: bool, mode: Mode) -> Op 
                 let cls = r.below(3);
                 // emb-class raw keys live beside the vector engine's keys (keys 5..7: no collision
                 // unless asked for), plain / cache anywhere
-                let k = if cls == 2 { 5 + r.below(3) } else { r.below(4) };
+                let k = if cls == 2 { 5 + r.below(3) } else if cls == 0 { gen_plain_k(r) } else { r.below(4) };
                 let e = if cls == 2 && r.chance(3, 4) { Some(r.range(-3, 3)) } else { None };
                 Op::KPut(cls, k, r.range(-5, 5), e)
             } else {
-                Op::KPut(r.below(2), r.below(4), r.range(-5, 5), None)
+                let cls = r.below(2);
+                Op::KPut(cls, if cls == 0 { gen_plain_k(r) } else { r.below(4) }, r.range(-5, 5), None)
             }
         }
         85..=86 => {
             let cls = if raw_mix { r.below(3) } else { r.below(2) };
-            Op::KDel(cls, if cls == 2 { 5 + r.below(3) } else { r.below(4) })
+            Op::KDel(cls, if cls == 2 { 5 + r.below(3) } else if cls == 0 { gen_plain_k(r) } else { r.below(4) })
         }
         87..=92 => {
             if mode == Mode::Manager && r.chance(1, 3) {
@@ -2163,6 +2174,333 @@ fn stream_autoret(ctx: &mut Ctx, m: &mut Model, rng: &Rng, cases: usize) {
     }
 }
 
+/// violation classes that say "the rollback did not bring back what the checkpoint held" (none of
+/// them is a listed known finding): a fresh one in a seeded stream is shrunk to a minimal statement list
+fn is_restore_class(c: &str) -> bool {
+    [
+        KEYS_LOST_CLASS,
+        KEYS_LEFT_CLASS,
+        VALUES_CHANGED_CLASS,
+        OLDER_LOST_CLASS,
+        NOT_LOADABLE_AFTER_ROLLBACK_CLASS,
+        TABLE_UNLISTED_CLASS,
+        "tensor_store.restore_from_bytes/keys_not_restored",
+        "query_router.rollback/graph_state_not_restored",
+        "query_router.rollback/vector_state_not_restored",
+        "query_router.rollback/relational_state_not_restored",
+        "query_router.rollback/retained_checkpoint_not_restorable",
+        "query_router.rollback/wrong_checkpoint_restored",
+    ]
+    .contains(&c)
+}
+
+/// Directed, seed-independent (run FIRST): key families that share a shard of the metadata slab.
+/// `MetadataSlab::restore` (on the rollback path: `restore_from_bytes` → `SlabRouter::from_bytes`)
+/// re-distributes the snapshot's ONE sorted map over 16 shards chosen by the key's first byte; a
+/// database whose keys are `_…`, `node:`, `edge:`, `emb:` and `plain:` only never has two different
+/// first bytes in one shard, so nothing there tells whether the shards are built entry by entry or
+/// wholesale.  The shortest histories in which that is the only thing keeping the rollback exact come
+/// first — `user:` keys beside an edge and an embedding (shard 5); `order:` keys beside the internal
+/// `_` keys, which include the blobs of an OLDER retained checkpoint (shard 15) — then their
+/// neighbours: a family sorting BEFORE the engine's (`/path:` vs `_`, `Note:` vs `node:`) and after it
+/// (`~tmp:`), table metadata, EVERY pair of the ten raw families (same shard and different shards,
+/// several keys each, two checkpoints, rollback to the newer then to the older one), and every raw
+/// family beside all engines at once.
+fn stream_shard_directed(ctx: &mut Ctx, m: &mut Model) {
+    const CK: Op = Op::Ckpt(None);
+    let rb = |n: u64| Op::Rollback(NAME0 + n);
+    let kp = |k: u64, x: i64| Op::KPut(0, k, x, None);
+    let kd = |k: u64| Op::KDel(0, k);
+    let v3 = |k: u64| Op::VPut(k, vec![1, 2, 3]);
+    use Op::*;
+    let mut cases: Vec<(String, Mode, Vec<Op>, Vec<u64>)> = vec![
+        ("user_beside_edge_and_emb".into(), Mode::Router, vec![GNode(0), GNode(1), GEdge(1, 2), v3(0), kp(100, 1), kp(101, 2), CK, GDelE(1), GNode(2), kp(100, 5), rb(0), GEdge(1, 2), v3(1)], vec![]),
+        ("order_beside_older_checkpoint".into(), Mode::Router, vec![GNode(0), kp(0, 1), CK, kp(200, 1), kp(201, 2), CK, kp(202, 3), kd(200), rb(1), CkTop(3), rb(0), kp(200, 7)], vec![]),
+        ("order_beside_older_checkpoint_manager".into(), Mode::Manager, vec![GNode(0), kp(0, 1), CK, kp(200, 1), kp(201, 2), CK, kp(202, 3), kd(200), rb(1), CkTop(3), Rollback(0), kp(200, 7)], vec![5, 6]),
+        ("order_beside_two_older_checkpoints".into(), Mode::Manager, vec![kp(0, 1), CK, kp(1, 1), CK, kp(200, 1), kp(201, 2), CK, kp(202, 3), rb(2), CkAll, rb(1), CkAll, rb(0)], vec![5, 6, 7]),
+        ("path_before_internal_keys".into(), Mode::Router, vec![RCreate(0), kp(900, 1), kp(901, 2), CK, kp(902, 3), CK, kd(900), rb(1), rb(0)], vec![]),
+        ("note_and_tmp_around_node".into(), Mode::Router, vec![GNode(0), GNode(1), GEdge(1, 2), kp(300, 1), kp(301, 1), kp(400, 1), kp(401, 2), CK, GDelN(1), kd(300), kd(400), rb(0), GNode(2)], vec![]),
+        ("table_metadata_beside_order".into(), Mode::Router, vec![RCreate(0), RCreate(1), RHidx(0), kp(200, 1), kp(201, 1), CK, RDrop(1), kd(200), rb(0)], vec![]),
+        ("product_beside_plain".into(), Mode::Router, vec![kp(0, 1), kp(1, 2), kp(500, 3), kp(501, 4), CK, kd(0), kd(500), kp(2, 1), rb(0)], vec![]),
+        ("raw_emb_and_cache_beside_user".into(), Mode::Router, vec![KPut(2, 5, 1, Some(2)), KPut(2, 6, 2, None), KPut(1, 0, 4, None), kp(100, 1), kp(101, 1), CK, KDel(2, 5), kd(101), KPut(2, 7, 3, Some(1)), rb(0)], vec![]),
+    ];
+    // every pair of raw families, several keys each; two checkpoints; newer then older rollback
+    for f in 0..FAMS.len() as u64 {
+        for g in (f + 1)..FAMS.len() as u64 {
+            let (a, b) = (f * 100, g * 100);
+            cases.push((
+                format!("pair_{}_{}", FAMS[f as usize].trim_end_matches(':'), FAMS[g as usize].trim_end_matches(':')),
+                Mode::Manager,
+                vec![kp(a, 1), kp(a + 1, 2), kp(b, 3), kp(b + 1, 4), kp(b + 2, 5), CK, kd(a), kp(b, 9), kp(a + 2, 6), CK, kd(b + 1), kp(a + 3, 7), rb(1), rb(0)],
+                vec![5, 6],
+            ));
+        }
+    }
+    // every raw family beside every engine's families at once
+    for f in 0..FAMS.len() as u64 {
+        let a = f * 100;
+        cases.push((
+            format!("all_engines_beside_{}", FAMS[f as usize].trim_end_matches(':')),
+            if f % 2 == 0 { Mode::Router } else { Mode::Manager },
+            vec![GNode(0), GNode(1), GEdge(1, 2), v3(0), RCreate(0), RIns(0, 1, 1), KPut(2, 5, 1, Some(2)), KPut(1, 0, 4, None), kp(a, 1), kp(a + 1, 2), CK, kp(a + 2, 3), GNode(2), CK, GDelN(1), kd(a), VDel(0), rb(1), rb(0), GNode(0), kp(a + 5, 5)],
+            if f % 2 == 0 { vec![] } else { vec![5, 6] },
+        ));
+    }
+    for (name, mode, ops, tss) in cases {
+        ctx.rep.hit("witness:shard_families");
+        ctx.rep.hit(&format!("witness:shard:{name}"));
+        run_case(ctx, m, "witness", mode, 10, &ops, &tss, true);
+    }
+}
+
+/// Seeded: databases whose key ALPHABET makes families share a metadata shard.  Each case takes one
+/// whole shard group of raw families (`FAM_GROUPS`: both families of a two-family shard, or a family
+/// that shares its shard with an engine's keys) plus up to two more families, several keys per family,
+/// a random subset of the engines beside them, 2–4 checkpoints with statements in between, and then
+/// rolls back newest first — some targets twice, some by id, statements in between — so that every
+/// rollback is followed by rollbacks to OLDER checkpoints that must still be there.
+fn stream_families(ctx: &mut Ctx, m: &mut Model, rng: &Rng, cases: usize) {
+    let name = "families";
+    let mut r = rng.fork(name);
+    for _ in 0..cases {
+        let mode = if r.chance(1, 2) { Mode::Router } else { Mode::Manager };
+        let max = if mode == Mode::Router || r.chance(1, 2) { 10 } else { 2 + r.below(3) as usize };
+        let mut fams: Vec<u64> = FAM_GROUPS[r.below(FAM_GROUPS.len() as u64) as usize].to_vec();
+        for _ in 0..r.below(3) {
+            let f = r.below(FAMS.len() as u64);
+            if !fams.contains(&f) {
+                fams.push(f);
+            }
+        }
+        let engines = r.below(8);
+        for f in &fams {
+            ctx.rep.hit(&format!("families:{}", FAMS[*f as usize]));
+        }
+        let mut g = Gen { tables: 2, nodes_hi: 0, edges_hi: 0 };
+        let data = |r: &mut Rng, g: &mut Gen| -> Op {
+            loop {
+                let w = r.below(20);
+                let fam = fams[r.below(fams.len() as u64) as usize] * 100;
+                return match w {
+                    0..=8 => Op::KPut(0, fam + r.below(4), r.range(-5, 5), None),
+                    9..=10 => Op::KDel(0, fam + r.below(4)),
+                    11..=13 if engines & 1 != 0 => match r.below(6) {
+                        0..=2 => {
+                            g.nodes_hi += 1;
+                            Op::GNode(r.below(3))
+                        }
+                        3..=4 => {
+                            g.edges_hi += 1;
+                            Op::GEdge(1 + r.below(g.nodes_hi.max(1)), 1 + r.below(g.nodes_hi.max(1)))
+                        }
+                        _ => {
+                            if r.chance(1, 2) {
+                                Op::GDelE(1 + r.below(g.edges_hi.max(1)))
+                            } else {
+                                Op::GDelN(1 + r.below(g.nodes_hi.max(1)))
+                            }
+                        }
+                    },
+                    14..=15 if engines & 2 != 0 => {
+                        if r.chance(3, 4) {
+                            Op::VPut(r.below(4), vec![1 + r.range(0, 2), r.range(-2, 2), r.range(-2, 2)])
+                        } else {
+                            Op::VDel(r.below(4))
+                        }
+                    }
+                    16..=17 if engines & 4 != 0 => match r.below(5) {
+                        0 => Op::RCreate(r.below(2)),
+                        1 => Op::RHidx(r.below(2)),
+                        2 => Op::RDrop(r.below(2)),
+                        _ => Op::RIns(r.below(2), r.below(4) as i64, r.below(4) as i64),
+                    },
+                    18 => Op::KPut(2, 5 + r.below(3), r.range(-5, 5), if r.chance(1, 2) { Some(r.range(-3, 3)) } else { None }),
+                    19 => Op::KPut(1, r.below(3), r.range(-5, 5), None),
+                    _ => continue,
+                };
+            }
+        };
+        let n_ck = 2 + r.below(3);
+        let mut ops: Vec<Op> = vec![];
+        for _ in 0..n_ck {
+            for _ in 0..(3 + r.below(7)) {
+                ops.push(data(&mut r, &mut g));
+            }
+            ops.push(Op::Ckpt(None));
+        }
+        for _ in 0..r.below(5) {
+            ops.push(data(&mut r, &mut g));
+        }
+        let mut c = n_ck;
+        while c > 0 {
+            c -= 1;
+            if c > 0 && r.chance(1, 5) {
+                continue;
+            }
+            let target = if r.chance(1, 4) { c } else { NAME0 + c };
+            ops.push(Op::Rollback(target));
+            if r.chance(1, 4) {
+                ops.push(Op::Rollback(target));
+            }
+            if r.chance(1, 6) {
+                ops.push(Op::CkAll);
+            }
+            for _ in 0..r.below(3) {
+                ops.push(data(&mut r, &mut g));
+            }
+        }
+        let tss: Vec<u64> = (0..n_ck).map(|i| 100 + 2 * i).collect();
+        let before: BTreeSet<String> = ctx.per_class.keys().filter(|c| is_restore_class(c)).cloned().collect();
+        let (agreed, violated) = run_case(ctx, m, name, mode, max, &ops, &tss, true);
+        let fresh_class: Option<String> = ctx.per_class.keys().find(|c| is_restore_class(c) && !before.contains(*c)).cloned();
+        if let (true, Some(class)) = (violated, fresh_class) {
+            let small = shrink_list(&ops, &mut |cand: &[Op]| {
+                let mut scratch = Ctx { rep: Report::new(""), per_class: BTreeMap::new() };
+                run_case(&mut scratch, m, name, mode, max, cand, &tss, false);
+                scratch.per_class.contains_key(&class)
+            });
+            let lines: Vec<String> = small.iter().map(|o| format!("{o:?}")).collect();
+            ctx.rep.note(&format!("{name}: {class} shrunk (max {max}): {}", lines.join("; ")));
+            ctx.rep.violation(&class, "the same class on the shrunk statement list", json!({"stream": name, "mode": if mode == Mode::Router { "router" } else { "manager" }, "max": max, "statements": lines, "ts": tss}));
+        } else if !agreed {
+            let small = shrink_list(&ops, &mut |cand: &[Op]| {
+                let mut scratch = Ctx { rep: Report::new(""), per_class: BTreeMap::new() };
+                let (a, _) = run_case(&mut scratch, m, name, mode, max, cand, &tss, false);
+                !a
+            });
+            ctx.rep.note(&format!("{name}: shrunk disagreement (max {max}): {}", small.iter().map(|o| format!("{o:?}")).collect::<Vec<_>>().join("; ")));
+        }
+    }
+}
+
+/// every (key, x) a real metadata slab shows: `keys()` (all shards merged), each value read back
+/// through `get` (the key's own shard), and `len()`
+fn mdslab_image(slab: &MetadataSlab) -> String {
+    let mut keys = slab.keys();
+    keys.sort_by(|a, b| a.as_bytes().cmp(b.as_bytes()));
+    let items: Vec<String> = keys
+        .iter()
+        .map(|k| {
+            let v = match slab.get(k).as_ref().and_then(|t| t.get("x").cloned()) {
+                Some(TensorValue::Scalar(ScalarValue::Int(x))) => x.to_string(),
+                _ => "?".to_string(),
+            };
+            format!("{}={v}", hex(k.as_bytes()))
+        })
+        .collect();
+    format!("{} #{}", items.join(","), slab.len())
+}
+
+/// The sharded metadata slab alone (`MetadataSlab`: set / delete / snapshot + restore) against the
+/// model of Shard.lean, keys over an alphabet of FIRST BYTES that collide modulo 16 in every
+/// combination (same byte, same shard with another byte before / after it in key order, different
+/// shards, the empty key, multi-byte UTF-8 first characters), with a harness-side last-write oracle
+/// evaluated on the real slab alone.
+fn stream_mdslab(ctx: &mut Ctx, m: &mut Model, rng: &Rng, cases: usize) {
+    let mut r = rng.fork("mdslab");
+    // first characters by shard: 5: e u E U 5 | 14: n N ~ . ^ | 15: _ o O ? / | 0: p P @ 0 ' ' | 4: d t T D 4 | 3: s c é(0xC3)
+    const FIRST: [&str; 29] = ["e", "u", "E", "U", "5", "n", "N", "~", ".", "^", "_", "o", "O", "?", "/", "p", "P", "@", "0", " ", "d", "t", "T", "D", "4", "s", "c", "é", "ß"];
+    const REST: [&str; 4] = [":1", ":2", "dge:7", ""];
+    let directed: Vec<Vec<String>> = vec![
+        vec!["set edge:1 1", "set node:1 2", "set user:1 3", "reload", "reload"],
+        vec!["set _blob:meta:a 1", "set _meta:table:t 2", "set node:1 3", "set order:1 4", "reload"],
+        vec!["set /path:1 1", "set _idx:t 2", "set Note:1 3", "set node:1 4", "set ~tmp:1 5", "reload", "del node:1", "reload"],
+        vec!["set  1", "set p:1 2", "set P:1 3", "set @:1 4", "reload"],
+        vec!["set é:1 1", "set s:1 2", "set c:1 3", "set ß:1 4", "reload", "set s:1 5", "reload"],
+    ]
+    .into_iter()
+    .map(|c| c.into_iter().map(String::from).collect())
+    .collect();
+    let n_dir = directed.len();
+    for case in 0..(n_dir + cases) {
+        let mut slab = MetadataSlab::new();
+        m.ask("ms reset");
+        let mut want: BTreeMap<Vec<u8>, i64> = BTreeMap::new();
+        let mut trace: Vec<String> = vec![];
+        // the first characters of this case: 2..5 of them, in 2 cases of 3 drawn so that at least two collide modulo 16
+        let mut firsts: Vec<&str> = vec![];
+        if r.chance(2, 3) {
+            let a = *r.pick(&FIRST);
+            firsts.push(a);
+            let same: Vec<&str> = FIRST.iter().copied().filter(|b| *b != a && b.as_bytes()[0] % 16 == a.as_bytes()[0] % 16).collect();
+            if !same.is_empty() {
+                firsts.push(*r.pick(&same));
+            }
+        }
+        while firsts.len() < 2 + r.below(4) as usize {
+            firsts.push(*r.pick(&FIRST));
+        }
+        let len = if case < n_dir { directed[case].len() } else { 6 + r.below(24) as usize };
+        let mut agreed = true;
+        for i in 0..len {
+            // (op, key, value)
+            let (opw, key, val): (String, String, i64) = if case < n_dir {
+                let w: Vec<&str> = directed[case][i].splitn(3, ' ').collect();
+                match w[0] {
+                    "set" if w.len() == 3 => ("set".into(), w[1].to_string(), w[2].parse().unwrap()),
+                    "set" => ("set".into(), String::new(), w[1].parse().unwrap()),
+                    "del" => ("del".into(), w[1].to_string(), 0),
+                    _ => ("reload".into(), String::new(), 0),
+                }
+            } else {
+                let key = if r.chance(1, 40) { String::new() } else { format!("{}{}", r.pick(&firsts), r.pick(&REST)) };
+                match r.below(20) {
+                    0..=10 => ("set".into(), key, r.range(-9, 9)),
+                    11..=13 => ("del".into(), key, 0),
+                    _ => ("reload".into(), String::new(), 0),
+                }
+            };
+            ctx.rep.hit(&format!("mdslab:{opw}"));
+            let line = match opw.as_str() {
+                "set" => {
+                    let mut t = TensorData::new();
+                    t.set("x", TensorValue::Scalar(ScalarValue::Int(val)));
+                    slab.set(&key, t);
+                    want.insert(key.as_bytes().to_vec(), val);
+                    format!("ms set {} {val}", hex(key.as_bytes()))
+                }
+                "del" => {
+                    let had = slab.delete(&key).is_some();
+                    if had != want.remove(key.as_bytes()).is_some() {
+                        ctx.violation("tensor_store.metadata_slab/delete_answer", "delete answered the opposite of whether the key was stored", json!({"ops": trace.clone(), "key": key}));
+                    }
+                    format!("ms del {}", hex(key.as_bytes()))
+                }
+                _ => {
+                    let distinct_first: BTreeSet<u8> = want.keys().filter_map(|k| k.first().copied()).collect();
+                    let shards: BTreeSet<u8> = distinct_first.iter().map(|b| b % 16).collect();
+                    if shards.len() < distinct_first.len() {
+                        // a shard holds keys of two different first bytes: it is filled from two runs of the sorted snapshot
+                        ctx.rep.hit("mdslab:reload_with_two_first_bytes_in_one_shard");
+                    }
+                    slab = MetadataSlab::restore(slab.snapshot());
+                    "ms reload".to_string()
+                }
+            };
+            trace.push(line.clone());
+            let img = mdslab_image(&slab);
+            // property oracle on the real slab alone: every key reads its own last value, nothing else is listed
+            let expect = format!("{} #{}", want.iter().map(|(k, v)| format!("{}={v}", hex(k))).collect::<Vec<_>>().join(","), want.len());
+            if img != expect {
+                ctx.violation(
+                    "tensor_store.metadata_slab/entries_lost_or_misplaced",
+                    &format!("the slab shows [{img}] where the last writes are [{expect}]: after `{line}` a key is missing from the listing, not found in its own shard, or the count is off"),
+                    json!({"ops": trace.clone(), "keys": want.keys().map(|k| String::from_utf8_lossy(k).to_string()).collect::<Vec<_>>()}),
+                );
+            }
+            if agreed {
+                let mo = m.ask(&line);
+                let tr = trace.clone();
+                if !ctx.rep.compare("mdslab", || json!({"ops": tr}), &img, &mo) {
+                    agreed = false;
+                }
+            }
+        }
+        let key = trace.join(";");
+        ctx.rep.case("mdslab", if agreed && !want.is_empty() { Some(&key) } else { None });
+    }
+}
+
 /// hand-written scenarios = the Lean witnesses, replayed on the real code (also run first)
 fn stream_witness(ctx: &mut Ctx, m: &mut Model) {
     const CK: Op = Op::Ckpt(None);
@@ -2414,14 +2752,25 @@ fn stream_store_raw(ctx: &mut Ctx, m: &mut Model, rng: &Rng, cases: usize) {
         let store = TensorStore::new();
         m.ask("reset");
         let mut trace = vec![];
-        let mut snaps: Vec<(Vec<u8>, String, String)> = vec![];
+        let mut snaps: Vec<(Vec<u8>, String, String, Vec<String>)> = vec![];
         let len = 6 + r.below(20);
         let mut agreed = true;
+        // the plain-key families of this case: one whole shard group of raw families, sometimes more
+        // (`emb:` / `_cache:` keys are there in every case: `user:` shares the shard of `emb:`)
+        let mut fams: Vec<u64> = FAM_GROUPS[r.below(FAM_GROUPS.len() as u64) as usize].to_vec();
+        for _ in 0..r.below(3) {
+            fams.push(r.below(FAMS.len() as u64));
+        }
+        let all_keys = |st: &TensorStore| {
+            let mut v = st.scan("");
+            v.sort();
+            v
+        };
         for _ in 0..len {
             let w = r.below(10);
             let (imp, line) = if w < 6 {
                 let cls = r.below(3);
-                let k = r.below(4);
+                let k = if cls == 0 { *r.pick(&fams) * 100 + r.below(3) } else { r.below(4) };
                 let x = r.range(-5, 5);
                 let e = if cls == 2 && r.chance(2, 3) { Some(r.range(-3, 3)) } else { None };
                 let mut t = TensorData::new();
@@ -2437,7 +2786,7 @@ fn stream_store_raw(ctx: &mut Ctx, m: &mut Model, rng: &Rng, cases: usize) {
                 (imp, Op::KPut(cls, k, x, e).line())
             } else if w < 8 {
                 let cls = r.below(3);
-                let k = r.below(4);
+                let k = if cls == 0 { *r.pick(&fams) * 100 + r.below(3) } else { r.below(4) };
                 let imp = match store.delete(&Sys::raw_key(cls, k)) {
                     Ok(()) => "ok".to_string(),
                     Err(_) => "err notfound".to_string(),
@@ -2448,7 +2797,7 @@ fn stream_store_raw(ctx: &mut Ctx, m: &mut Model, rng: &Rng, cases: usize) {
                 let bytes = store.snapshot_bytes().expect("snapshot_bytes");
                 let img = raw_image(&store);
                 let id = snaps.len();
-                snaps.push((bytes, img, raw_image_of(&store, true)));
+                snaps.push((bytes, img, raw_image_of(&store, true), all_keys(&store)));
                 ctx.rep.hit("raw:snapshot");
                 (format!("id {id}"), "snap".to_string())
             } else {
@@ -2458,6 +2807,21 @@ fn stream_store_raw(ctx: &mut Ctx, m: &mut Model, rng: &Rng, cases: usize) {
                     Err(e) => format!("err other:{}", vname(&e)),
                 };
                 ctx.rep.hit("raw:restore");
+                {
+                    let first: BTreeSet<u8> = snaps[id].3.iter().filter(|k| !k.starts_with("_cache:")).filter_map(|k| k.bytes().next()).collect();
+                    if first.iter().map(|b| b % 16).collect::<BTreeSet<u8>>().len() < first.len() {
+                        ctx.rep.hit("raw:restore_with_two_first_bytes_in_one_shard");
+                    }
+                }
+                // the FULL key listing of the store (every family, nothing filtered)
+                let keys_now = all_keys(&store);
+                if keys_now != snaps[id].3 {
+                    ctx.violation(
+                        KEYS_LOST_CLASS,
+                        &format!("scan(\"\") after restore_from_bytes lists {keys_now:?} where the snapshotted store listed {:?}", snaps[id].3),
+                        json!({"ops": trace.clone(), "restore": id, "then": snaps[id].3, "now": keys_now}),
+                    );
+                }
                 let now = raw_image(&store);
                 if now != snaps[id].1 {
                     ctx.violation(
@@ -2843,6 +3207,9 @@ fn main() {
         "op:gdele", "op:vput", "op:vdel", "op:vbuild", "op:kput", "op:kdel", "op:ckpt", "op:rollback",
         "op:ckpt_named", "op:rollback_by_id", "op:ckdel", "op:cktop", "rollback:listed_id_also_a_name", "rollback:unlisted_id_by_name", "ckdel:listed_id_also_a_name", "gen:shadow_pair_injected",
         "rollback:by_shared_or_foreign_name", "blob_chunk:default", "blob_chunk:small_shared", "text_api:checked_after_rollback", "text_api:checked_at_checkpoint", "directed:dense_embedding", "directed:undecodable_image", "directed:dense_vector_engine_exact", "op:text_delete", "op:text_node_delete", "op:text_embed_delete", "auto_checkpoint:created", "op:ckpt_real", "op:ckall", "auto_checkpoint:at_retention_limit", "auto_checkpoint:evicted_one_at_limit", "create:at_retention_limit", "ckall:at_retention_limit", "autoret:no_tie_needed", "autoret:tie_regime", "slab:set", "slab:del", "slab:clear", "slab:compact", "slab:reload",
+        "witness:shard_families", "rollback:full_key_set_compared", "rollback:full_key_set_with_older_checkpoint_blobs", "rollback:older_checkpoint_in_snapshot",
+        "families:plain:", "families:user:", "families:order:", "families:Note:", "families:~tmp:", "families:Product:", "families:table:", "families:doc:", "families:item:", "families:/path:",
+        "mdslab:set", "mdslab:del", "mdslab:reload", "mdslab:reload_with_two_first_bytes_in_one_shard", "raw:restore_with_two_first_bytes_in_one_shard",
         "res:ok", "res:id", "res:count", "res:err notfound", "res:err exists", "res:err storage",
         "retention:tie_at_boundary", "retention:incremental", "retention:bulk", "raw:restore",
         "directed:tensor_store.restore_from_bytes/relational_tables_lost",
@@ -2862,6 +3229,7 @@ fn main() {
     let t0 = std::time::Instant::now();
     // directed, seed-independent reproductions first: every listed finding class must have fired
     // before any seeded stream runs
+    stream_shard_directed(&mut ctx, &mut m);
     stream_witness(&mut ctx, &mut m);
     stream_retention_tie_directed(&mut ctx, &mut m);
     directed_dense_embedding(&mut ctx);
@@ -2886,12 +3254,16 @@ fn main() {
     mark("auto", &mut laps);
     stream_autoret(&mut ctx, &mut m, &rng, 25 * scale);
     mark("autoret", &mut laps);
+    stream_families(&mut ctx, &mut m, &rng, 20 * scale);
+    mark("families", &mut laps);
     stream_retention(&mut ctx, &mut m, &rng, 300 * scale);
     mark("retention", &mut laps);
     stream_store_raw(&mut ctx, &mut m, &rng, 150 * scale);
     mark("store_raw", &mut laps);
     stream_slab(&mut ctx, &mut m, &rng, 60 * scale);
     mark("slab", &mut laps);
+    stream_mdslab(&mut ctx, &mut m, &rng, 100 * scale);
+    mark("mdslab", &mut laps);
     ctx.rep.note(&format!("stream wall times: {}", laps.join(", ")));
     ctx.rep.note(&format!("harness wall time {:.1}s; model lines {}", t0.elapsed().as_secs_f64(), m.lines));
     ctx.rep.note("created_at of router-made checkpoints is wall-clock seconds and cannot be set from outside: the router and auto streams never let retention trigger (max 10, fewer checkpoints); retention with controlled and tied timestamps is exercised through CheckpointStorage::store + RetentionManager::enforce in the manager and retention streams; the REAL creation paths at the limit — CheckpointManager::create_auto (destructive text statements) and CheckpointManager::create (CHECKPOINT) — run in the autoret stream and its directed cases over a listing filled with harness-clock checkpoints, which every wall-clock checkpoint is strictly newer than; the bound is judged on CheckpointManager::list(None) after every statement of every stream");
